@@ -250,6 +250,10 @@ class Interp:
             return Struct(n, [BV(16, [lit(name, i) for i in range(12)] + [0] * 4)])
         if n.endswith('page_table::PageTable'):
             return Struct(n, [Array(name, mk=lambda nm: Struct('structures::paging::page_table::PageTableEntry', [BV.sym(64, nm)]), length=512)])
+        if n.endswith('debug::Dr7Value'):
+            # Dr7Value only holds field and flag bits (enforced by from_bits / from_bits_truncate, decided in C19)
+            valid = 0xffff0000 | self.flags_all(n.replace('Dr7Value', 'Dr7Flags'))
+            return Struct(n, [BV(64, [lit(name, i) if (valid >> i) & 1 else 0 for i in range(64)])])
         if self.is_flags_type(n):
             allv = self.flags_all(n)
             lay = self.find_layout(t)
@@ -849,8 +853,23 @@ class Interp:
             if b0 == 'Sub' and self.known_le(st, b, a):
                 lo = max(lo, 0)
             m = 1 << a.w
-            may = lo < 0 or hi >= m
-            must = hi < 0 or lo >= m
+            if a.signed:
+                # signed operands: ranges are meaningful only when both are known non-negative
+                h = m >> 1
+                if amax < h and bmax < h:
+                    may = lo < -h or hi >= h
+                    must = hi < -h or lo >= h
+                    if not may and (lo < 0):
+                        # result may be negative: keep the affine form, no unsigned interval
+                        if wo:
+                            st.events.append(('ovf', b0, a, b, 'no-wrap', loc, fr.f['name'] if fr else None))
+                            return Struct('tuple', [res, BV.const(1, 0)])
+                        return res
+                else:
+                    may, must = True, False
+            else:
+                may = lo < 0 or hi >= m
+                must = hi < 0 or lo >= m
             if not may and res.has_top():
                 aff = res.aff
                 if aff is None:
@@ -938,6 +957,18 @@ class Interp:
             if ra and rb and not a.signed:
                 if max(y for _, y in ra) < min(x for x, _ in rb) or max(y for _, y in rb) < min(x for x, _ in ra):
                     return BV.const(1, int(op == 'Ne'))
+            if a.has_top() or b.has_top():
+                # bit-level payloads with unknown bits would alias distinct comparisons: key the predicate by the
+                # affine difference (a - b == 0), or make it unique
+                aa, ab = a.get_aff(), b.get_aff()
+                if aa is not None and ab is not None:
+                    d = aa.add(ab, -1).norm(a.w)
+                    if d.is_const():
+                        return BV.const(1, int((d.const == 0) == (op == 'Eq')))
+                    pb = pred('affeq', (a.w, d.key()))
+                else:
+                    pb = pred('opaque-eq', next(self.counter))
+                r = BV(1, [pb if op == 'Eq' else b_not(pb)])
             return self.apply_facts(st, r)
         if a.signed:
             return r
@@ -961,6 +992,10 @@ class Interp:
             if x.key() == b.key() and y.key() == a.key() and (s2 or strict):
                 # b < a  => not (a <= b) ; b <= a => not (a < b)
                 return BV.const(1, 0)
+        if a.has_top() or b.has_top():
+            ka, kb = a.key(), b.key()
+            uniq = next(self.counter) if (ka[0] == 'b' and TOP in ka[1]) or (kb[0] == 'b' and TOP in kb[1]) else 0
+            return self.apply_facts(st, BV(1, [pred('ultx' if strict else 'ulex', (ka, kb, uniq))]))
         return self.apply_facts(st, BV(1, [pred('ult' if strict else 'ule', (a.bits, b.bits))]))
 
     def apply_facts(self, st, r):
@@ -1499,16 +1534,36 @@ class Interp:
         st = ctx.st
         tag = ctx.target.split('::')[-1]
         n = next(self.counter)
-        st.events.append(('call', ctx.target, tuple(ctx.args), ctx.loc, ctx.fr.f['name'], n))
+        st.events.append(('call', ctx.target, tuple(ctx.args), ctx.loc, ctx.fr.f['name'], n, self.snapshot(st, ctx.args)))
         # mutable reference arguments are havocked
-        for a, t in zip(ctx.args, ctx.argtys):
+        def havoc(a, t):
             if isinstance(a, Ref) and t.get('k') == 'ref' and t.get('mut') and t['to'].get('k') in ('adt', 'uint', 'int', 'tuple'):
                 try:
                     nv = self.sym_value(t['to'], self.fresh('havoc'), st)
                     self._store_at(st, a.loc, a.path, nv)
                 except Unsupported:
                     pass
+            elif isinstance(a, Struct) and a.name == 'tuple' and t.get('k') == 'tuple':
+                for x, tx in zip(a.fields, t['elems']):
+                    havoc(x, tx)
+        for a, t in zip(ctx.args, ctx.argtys):
+            havoc(a, t)
         return self.fresh_result(st, ctx.dest_ty, '%s#%d' % (tag, n))
+
+    def snapshot(self, st, args):
+        """values behind reference arguments at the time of an opaque call"""
+        out = []
+        for a in args:
+            if isinstance(a, (Ref, Ptr)):
+                try:
+                    out.append(self.load(st, a))
+                except Unsupported:
+                    out.append(None)
+            elif isinstance(a, Struct) and a.name == 'tuple':
+                out.append(tuple(self.snapshot(st, a.fields)))
+            else:
+                out.append(None)
+        return out
 
     def fresh_result(self, st, rt, tag):
         k = rt.get('k')
